@@ -170,8 +170,6 @@ def validUtf8 : Bytes → Bool
          else isCont b1) && isCont b2 && isCont b3 && validUtf8 r
       | _ => false
     else false
-termination_by l => l.length
-decreasing_by all_goals (simp_wf; try omega)
 
 /-! ### exact float widenings (`half::f16::to_f32`, `f32 as f64`), on bit patterns -/
 
